@@ -14,7 +14,12 @@ for name in sorted(os.listdir(root)):
     needs = m.get("needs_to_manifest", "")
     if needs.startswith("see README"):
         rd = open(os.path.join(root, name, "README.md")).read() if os.path.exists(os.path.join(root, name, "README.md")) else ""
-        needs = " ".join(rd.split())[:260] + "…"
+        import re
+        chunks = [" ".join(c.split()) for c in re.split(r"\n\s*\n|\n(?=\s*[*-] )", rd)]
+        hit = [c for c in chunks if re.search(r"(?i)needed to manifest|what it takes|to manifest|\btrigger|needs\b|requires", c) and not c.startswith("#")]
+        needs = (hit[0] if hit else " ".join(rd.split()))
+        needs = re.sub(r"^[*-] ", "", needs).replace("**", "")
+        needs = needs[:300] + ("…" if len(needs) > 300 else "")
     caught = m.get("caught_by", {})
     if isinstance(caught, dict):
         c = ", ".join(f"{k} ({'tie' if 'tie only' in str(v) else 'replay'})" if "replay" in str(v) or "tie only" in str(v) else k for k, v in sorted(caught.items()))
